@@ -44,6 +44,7 @@ def run(tier):
     for sd in range(3 if quick else 12):
         for base in (2, 3):
             otasks.append(dict(case="generated[seed=%d|base=%d]" % (700 + sd, base), sid="gen%d.%d" % (sd, base), gen=[700 + sd, "int", base, sd]))
+    otasks.append(dict(case="kundur/kundur_vsc.json", sid="dc-extra", dc_extra=[(200.0, 0.5), (50.0, 3.0), (100.0, 1.0)]))
     obs = run_tasks("vh.pudrv:observe_case", otasks, nproc=NCPU, timeout=600)
     cases = [t["case"] for t in otasks]
     recs = []
